@@ -1092,6 +1092,56 @@ mod n {
         });
     }
 
+    /// the whole scene turned about the vertical axis: every position, every azimuth (degrees, counter-clockwise)
+    fn turn_scene(m: &mut Model, deg: f32) {
+        let r = nalgebra::Rotation3::from_euler_angles(0.0, 0.0, deg.to_radians());
+        for w in m.walls.iter_mut() {
+            w.geometry.azimuth += deg;
+            w.geometry.position = w.geometry.position.map(|p| r * p);
+        }
+        for s in m.shades.iter_mut() {
+            s.geometry.azimuth += deg;
+            s.geometry.position = s.geometry.position.map(|p| r * p);
+        }
+    }
+
+    // C12: the sunlit fraction is a property of the scene, not of its orientation: turning building, obstacles and sun
+    // together by any angle leaves it unchanged (the facade is then oblique to the axes). One of the obstacles is a
+    // long fin perpendicular to the facade that runs from 6 m behind its plane to 2 m in front of it.
+    #[test]
+    fn n_c12_turned_scene() {
+        drive("C12.turned", "Model::sunlit_fraction on the C12 scene (window normal / set back 0.3) x all subsets of 6 obstacles + a long fin crossing the facade plane, turned with the sun by {30, 45, 100, -135} degrees about the vertical axis: same fraction as the unturned scene (within one sample point of 25)", |c| {
+            let wv = c.pick(2);
+            let mut obs = [false; 6];
+            for k in 0..6 {
+                obs[k] = c.flag();
+            }
+            let long_fin = c.flag();
+            let az = c.of(&[0.0f32, 60.0, -60.0]);
+            let alt = c.of(&[8.0f32, 35.0, 75.0]);
+            let turn = c.of(&[30.0f32, 45.0, 100.0, -135.0]);
+            c.note(format!("window variant {} obstacles {:?} long fin {} sun az {} alt {} turned by {}", wv, obs, long_fin, az, alt, turn));
+            let build = |deg: f32| -> f32 {
+                let mut m = c12_model_n(wv, &obs, false);
+                if long_fin {
+                    m.shades.push(Shade { id: mk::uid(0x35), name: "long fin".into(), geometry: WallGeom { tilt: 90.0, azimuth: 90.0, position: Some(point![2.7, -2.0, 0.0]), polygon: mk::rect(8.0, 3.0) } });
+                }
+                turn_scene(&mut m, deg);
+                let dir = nalgebra::Rotation3::from_euler_angles(0.0, 0.0, deg.to_radians()) * ray_dir_to_sun(az, alt);
+                let w = &m.windows[0];
+                let origins = m.ray_origins_for_window(w);
+                let occ = m.collect_occluders();
+                m.sunlit_fraction(w, &origins, &dir, &occ)
+            };
+            let (f0, f1) = (build(0.0), build(turn));
+            c.check("C12.turned.same_fraction", (f0 - f1).abs() <= 0.0401, || format!("sunlit fraction {} in the scene as built, {} after turning everything by {} degrees", f0, f1, turn));
+            if long_fin && f0 < 1.0 {
+                c.nontrivial(format!("{} {:?} {} {} {}", wv, obs, az, alt, turn));
+            }
+            c.sample(|| format!("variant {} obstacles {:?} long fin {} az {} alt {} turn {} -> {} / {}", wv, obs, long_fin, az, alt, turn, f0, f1));
+        });
+    }
+
     // C12: the window's sample points: a regular grid of cell centres covering the window, on the window plane
     #[test]
     fn n_c12_ray_origins() {
